@@ -154,6 +154,7 @@ def run_oracles(prog, meta, sessions):
     td_exec_before_last_bu = False  # ... as it was when the last bottom-up build started: the recorded finding O4 needs it
     tdx_since_bu = set()            # the tasks such top-down sessions executed
     tdx_before_last_bu = set()
+    bu_exec_last = set()            # the tasks the last bottom-up build executed
     task_out = {}
     wf = prog.kind == 'wf'
     for si, s in enumerate(sessions):
@@ -298,7 +299,8 @@ def run_oracles(prog, meta, sessions):
                             for y in nxt:
                                 if y not in seen: seen.add(y); st.append(y)
                     return seen
-                mixed = all(any(('T%d' % x) in deps_of(t) for x in tdx_before_last_bu) for t in stale)
+                # ... and the bottom-up build did not execute that task again (O4: 'the bottom-up build then schedules nothing' for it)
+                mixed = all(any(('T%d' % x) in deps_of(t) for x in tdx_before_last_bu if x not in bu_exec_last) for t in stale)
             if prog.uses_failing:
                 if stale and not s.errs and not mixed:
                     out.append(('C18', 'stale-after-erring-bottom-up', '%s: after a bottom-up build during which checkers failed, task(s) %r were left stale (reused although a dependency check failed or was skipped)' % (where, stale)))
@@ -307,6 +309,24 @@ def run_oracles(prog, meta, sessions):
             elif s.fresh_ops is not None and all('abort' not in o for o in s.fresh_ops) and s.ops != s.fresh_ops:
                 d = next((a, b) for a, b in zip(s.ops, s.fresh_ops) if a != b)
                 out.append(('C03', 'stale-output-after-bottom-up', '%s: %r but from scratch %r' % (where, d[0], d[1])))
+
+        # ---- C09 (C04): after a task was executed in a bottom-up build, every task that holds a recorded require of it is checked with its
+        # own checker against the new output.  Judged for requirers that held the dependency when the session began and have not
+        # started executing in this session before that point (only their own re-execution removes the dependency)
+        if is_bu and prev_nodes and not ab:
+            started = set(); seg = None
+            for e in s.events:
+                f = e.split()
+                if f[0] == 'XS': started.add('T' + f[1])
+                elif f[0] == 'SBTS': seg = (f[1], set(), set(started))
+                elif f[0] == 'CQS' and seg is not None: seg[1].add('T' + f[1])
+                elif f[0] == 'SBTE' and seg is not None:
+                    x, checked, st0 = seg; seg = None
+                    holders = [src for (k, src) in prev_nodes.get('T' + x, {}).get('ins', []) if k == 'Q' and src not in st0]
+                    missing = [h for h in holders if h not in checked]
+                    if missing:
+                        out.append(('C09', 'requirer-not-checked', '%s: task %s was executed in the bottom-up build, but the recorded require(s) of it by %r were not checked against its new output (checked: %r)' % (where, x, missing, sorted(checked))))
+                        break
 
         # ---- C09 (C03): scheduling for a reported resource checks every recorded read and write dependency on it with its own checker
         if is_bu and prev_nodes:
@@ -592,6 +612,7 @@ def run_oracles(prog, meta, sessions):
         if is_bu:
             td_exec_before_last_bu = td_exec_since_bu; td_exec_since_bu = False
             tdx_before_last_bu = tdx_since_bu; tdx_since_bu = set()
+            bu_exec_last = set(counts)
         elif counts and s.step not in meta.get('probe_steps', {}):
             td_exec_since_bu = True
             tdx_since_bu |= set(counts)
